@@ -315,7 +315,51 @@ def tzinfo_of(off):
     return datetime.timezone(datetime.timedelta(seconds=off))
 
 
+class SubStr(str): pass
+class SubInt(int): pass
+class SubFloat(float): pass
+class SubList(list): pass
+class SubTuple(tuple): pass
+class SubSet(set): pass
+class SubFrozenSet(frozenset): pass
+class SubDeque(collections.deque): pass
+class SubDict(dict): pass
+class SubDefaultDict(collections.defaultdict): pass
+class SubOrderedDict(collections.OrderedDict): pass
+class SubDateTime(datetime.datetime): pass
+class SubDate(datetime.date): pass
+class SubTime(datetime.time): pass
+class SubTimedelta(datetime.timedelta): pass
+class SubDecimal(decimal.Decimal): pass
+class SubUUID(uuid.UUID): pass
+class SubPath(pathlib.PosixPath): pass
+
+
 def build_value(v, reg):
+    """value spec -> object; with v['sub'] the object is an instance of a user SUBCLASS of the documented type"""
+    o = build_value0(v, reg)
+    if v.get('sub'):
+        t = type(o)
+        sub = {str: SubStr, int: SubInt, float: SubFloat, list: SubList, tuple: SubTuple, set: SubSet, frozenset: SubFrozenSet,
+               collections.deque: SubDeque, dict: SubDict, collections.OrderedDict: SubOrderedDict, decimal.Decimal: SubDecimal,
+               datetime.date: SubDate, datetime.timedelta: SubTimedelta}.get(t)
+        if sub is not None:
+            return sub(days=o.days, seconds=o.seconds, microseconds=o.microseconds) if t is datetime.timedelta else \
+                sub(o.year, o.month, o.day) if t is datetime.date else sub(o)
+        if t is collections.defaultdict:
+            return SubDefaultDict(o.default_factory, o)
+        if t is datetime.datetime:
+            return SubDateTime(o.year, o.month, o.day, o.hour, o.minute, o.second, o.microsecond, tzinfo=o.tzinfo)
+        if t is datetime.time:
+            return SubTime(o.hour, o.minute, o.second, o.microsecond, tzinfo=o.tzinfo)
+        if t is uuid.UUID:
+            return SubUUID(o.hex)
+        if isinstance(o, pathlib.PurePath):
+            return SubPath(str(o))
+    return o
+
+
+def build_value0(v, reg):
     k = v['v']
     if k == 'none': return None
     if k == 'bool': return bool(v['x'])
@@ -406,12 +450,13 @@ def eff_tag(spec):
 
 def ref_key(name, xf):
     """Documented spelling of a snake_case field name under a key transform (docs: Meta / key_transform)."""
-    ws = name.split('_')
+    ws = [w for w in name.split('_') if w]          # a run of underscores is one separator
     cap = [w[:1].upper() + w[1:] for w in ws]
     if xf == 'CAMEL': return ws[0] + ''.join(cap[1:])
     if xf == 'PASCAL': return ''.join(cap)
     if xf == 'LISP': return '-'.join(ws)
-    return name     # SNAKE (canonical names are already snake) / NONE
+    if xf == 'SNAKE': return '_'.join(ws)
+    return name     # NONE
 
 
 def ref_encode(o, cfg, reg):
@@ -422,6 +467,8 @@ def ref_encode(o, cfg, reg):
         return o
     if isinstance(o, enum.Enum):
         return o.value
+    if isinstance(o, (str, int, float)):             # user subclasses of the JSON scalars are written as they are
+        return o
     if isinstance(o, (bytes, bytearray)):
         return base64.b64encode(bytes(o)).decode('ascii')
     if isinstance(o, uuid.UUID):
